@@ -7,6 +7,7 @@ import Beeb.Model.Catalog
 import Beeb.Spec.Info
 import Beeb.Model.Main
 import Beeb.Model.Basic
+import Beeb.Spec.FluxEnc
 import Std.Data.HashMap
 
 open Beeb Driver
@@ -105,7 +106,7 @@ def opProbe (st : DState) (args : List String) : String :=
     match unhex hp, unhex hn with
     | some p, some n =>
       let m : Media := match hostFs st p with
-        | .raw secs _ => mediaOfArray secs
+        | .raw secs _ _ => mediaOfArray secs
         | .sparse k tbl => fun lba => if lba < k then some (tbl.getD lba (List.replicate 256 0)) else none
         | _ => fun _ => none
       match identifyImage m (bytesToString n) true with
@@ -144,6 +145,110 @@ def opAfsp (args : List String) : String :=
     | _, _, _, _, _, _ => "bad-op"
   | _ => "bad-op"
 
+
+def showSectors (l : List Flux.FSector) : String :=
+  s!"{l.length}:" ++ String.join (l.map fun s => s!"{s.cyl}.{s.head}.{s.record}.{s.crc1}.{s.crc2}.{hex s.data};")
+
+/-- `trackdec fm|mfm <first> <stride> <hex>` -/
+def opTrackDec (args : List String) : String :=
+  match args with
+  | [k, f, st, h] =>
+    match f.toNat?, st.toNat?, unhex h with
+    | some first, some stride, some b =>
+      if stride == 0 then "bad-op" else
+      let bits := Flux.BitStream.ofBytes b first stride
+      if k == "fm" then showSectors (Flux.decodeFm bits).1 else showSectors (Flux.decodeMfm bits)
+    | _, _, _ => "bad-op"
+  | _ => "bad-op"
+
+def parseSecs (s : String) : Option (List (Nat × Bytes)) :=
+  if s == "-" then some [] else
+  (s.splitOn ",").mapM fun it =>
+    match it.splitOn ":" with
+    | [r, h] => match r.toNat?, unhex h with
+      | some rn, some d => some (rn, d)
+      | _, _ => none
+    | _ => none
+
+/-- `trackenc fm|mfm cyl head gap1 sync gap2 gap3 gap4 fill <rec:hex,…>` : the spec encoders; hex of the cells packed LSB first -/
+def opTrackEnc (args : List String) : String :=
+  match args with
+  | [k, c, hd, g1, sy, g2, g3, g4, fl, secs] =>
+    match c.toNat?, hd.toNat?, g1.toNat?, sy.toNat?, g2.toNat?, g3.toNat?, g4.toNat?, fl.toNat?, parseSecs secs with
+    | some c, some hd, some g1, some sy, some g2, some g3, some g4, some fl, some ss =>
+      let lay : Spec.Flux.Layout := { gap1 := g1, sync := sy, gap2 := g2, gap3 := g3, gap4 := g4, fill := fl }
+      let cells := if k == "fm" then Spec.Flux.fmTrack lay c hd ss else Spec.Flux.mfmTrack lay c hd ss
+      s!"{cells.length} {hex (Spec.Flux.packLsb cells)}"
+    | _, _, _, _, _, _, _, _, _ => "bad-op"
+  | _ => "bad-op"
+
+def parseItems (s : String) : Option (List Spec.Flux.V3Item) :=
+  if s == "-" then some [] else
+  (s.splitOn ",").mapM fun it =>
+    match it.splitOn ":" with
+    | ["c", b] => b.toNat?.map .cells
+    | ["n"] => some .nop
+    | ["i"] => some .setIndex
+    | ["r", v] => v.toNat?.map .setBitrate
+    | ["s", k, b] => match k.toNat?, b.toNat? with
+      | some k, some b => some (.skipBits k b)
+      | _, _ => none
+    | _ => none
+
+/-- `v3items <items>` : stored bytes and denoted cells of an HFEv3 item stream, and what copy_hfe makes of the bytes -/
+def opV3Items (args : List String) : String :=
+  match args with
+  | [its] =>
+    match parseItems its with
+    | some items =>
+      let stored := Spec.Flux.v3Bytes items
+      let cells := Spec.Flux.v3Cells items
+      let dec := match Flux.copyHfe true (stored.map Flux.revBits) {} [] false with
+        | none => "throw"
+        | some (st, acc, noise) => s!"{hex acc.reverse} {st.gotBits} {showBool noise}"
+      s!"{hex stored} {cells.length} {hex (Spec.Flux.packLsb cells)} {dec}"
+    | none => "bad-op"
+  | _ => "bad-op"
+
+def u32At (b : Bytes) (o : Nat) : Nat := b.getD o 0 + 256 * b.getD (o+1) 0 + 65536 * b.getD (o+2) 0 + 16777216 * b.getD (o+3) 0
+
+/-- length-prefixed (u32 LE) byte strings -/
+def readBlobs : Nat → Bytes → List Bytes → List Bytes
+  | 0, _, acc => acc.reverse
+  | fuel + 1, b, acc =>
+    if b.length < 4 then acc.reverse
+    else
+      let n := u32At b 0
+      readBlobs fuel (b.drop (4 + n)) (((b.drop 4).take n) :: acc)
+
+def unpackLsb (nbits : Nat) (b : Bytes) : List Bool :=
+  (List.range nbits).map fun i => (b.getD (i / 8) 0 >>> (i % 8)) % 2 == 1
+
+/-- `hfeenc <v3> <fm> <sides> <file of blobs: side0, side1 per track>` / `hxcenc <sides> <file of blobs: u32 nbits ++ packed cells, per track per side>` -/
+def opImgEnc (args : List String) (content : Bytes) : String :=
+  let blobs := readBlobs (content.length + 1) content []
+  match args with
+  | ["hfeenc", v3, fm, sides] =>
+    match sides.toNat? with
+    | some sd =>
+      let rec pairs : List Bytes → List (Bytes × Bytes)
+        | a :: b :: r => (a, b) :: pairs r
+        | _ => []
+      hex (Spec.Flux.hfeImage (v3 == "1") (fm == "1") sd (pairs blobs))
+    | none => "bad-op"
+  | ["hxcenc", sides] =>
+    match sides.toNat? with
+    | some sd =>
+      if sd == 0 then "bad-op" else
+      let cells := blobs.map fun b => unpackLsb (u32At b 0) (b.drop 4)
+      let rec group (fuel : Nat) (l : List (List Bool)) : List (List (List Bool)) :=
+        match fuel with
+        | 0 => []
+        | fuel + 1 => if l.isEmpty then [] else l.take sd :: group fuel (l.drop sd)
+      hex (Spec.Flux.hxcImage sd (group (cells.length + 1) cells))
+    | none => "bad-op"
+  | _ => "bad-op"
+
 def dispatch (st : DState) (line : String) : String :=
   match line.trimAscii.toString.splitOn " " with
   | "infoline" :: args => opInfoLine args
@@ -153,6 +258,9 @@ def dispatch (st : DState) (line : String) : String :=
   | "probe" :: args => opProbe st args
   | "ere" :: args => opEre args
   | "afsp" :: args => opAfsp args
+  | "trackdec" :: args => opTrackDec args
+  | "trackenc" :: args => opTrackEnc args
+  | "v3items" :: args => opV3Items args
   | _ => "bad-op"
 
 /-- stateful ops: `file <hexpath> raw|gzbad|missing <host path of (inflated) content>`, `clearfiles` -/
@@ -167,7 +275,7 @@ partial def loop (h : IO.FS.Stream) (out : IO.FS.Stream) (st : DState) : IO Unit
       let hf ← (match kind with
         | "raw" => do
           let b ← IO.FS.readBinFile path
-          pure (HostFile.raw (sectorsOfByteArray b) b.size)
+          pure (HostFile.raw (sectorsOfByteArray b) b.size (((List.range (b.size % 256)).map fun j => (b.get! (b.size / 256 * 256 + j)).toNat)))
         | "gzbad" => pure HostFile.gzBad
         | _ => pure HostFile.missing)
       out.putStrLn "ok"
@@ -201,6 +309,10 @@ partial def loop (h : IO.FS.Stream) (out : IO.FS.Stream) (st : DState) : IO Unit
     out.putStrLn "ok"
     loop h out { st with bstdin := bytesOfByteArray b }
   | ["clearfiles"] => out.putStrLn "ok"; loop h out { st with files := [], bfiles := [], bstdin := [] }
+  | "imgenc" :: path :: args =>
+    let b ← IO.FS.readBinFile path
+    out.putStrLn (opImgEnc args (bytesOfByteArray b))
+    loop h out st
   | _ =>
     out.putStrLn (dispatch st line)
     loop h out st
